@@ -382,7 +382,8 @@ def to_list_gates(chk, F):
 # ---------------------------------------------------------------------------------------------
 def algebra_shape(chk, F):
     # Mul for &Dimensionality: btree_merge with closure returning a+b / None when zero
-    fn = F.find(CORE, "<&'a %s as core::ops::arith::Mul>::mul" % DIM, exact=True)
+    # (normalised: the merge and its closure may have been given a name - `merge_exponents(&self.dims, &rhs.dims)`)
+    fn = F.find(CORE, "<&'a %s as core::ops::arith::Mul>::mul" % DIM, exact=True, inline=True, keep=("btree_merge$", "Option::<T>", "Result::<T, E>", "Iterator", "bool>::then"))
     fk = "rink_core::Dimensionality::mul"
     bm = k2.call_blocks(fn, "algorithms::btree_merge::btree_merge")
     chk.decide(len(bm) == 1, "algebra-shape", fk, "uses-btree_merge", fn.where(), "Mul merges the two exponent maps with btree_merge", "Mul for &Dimensionality does not call btree_merge once")
@@ -409,7 +410,10 @@ def algebra_shape(chk, F):
             gs = [c.guard_desc(g) for g in c.guards_of(i)]
             nz = any(d[0] == "bool" and d[2] is True and d[1][0][0] == "binop" and d[1][0][1] == "Ne" and "const" in (d[1][0][3][0][0], d[1][0][2][0][0])
                      and ("Add" in ap_str(d[1])) for d in gs)
-            ok = is_sum and nz
+            import c06 as _c06
+            generic = _c06.generic_nonzero(c, gs)
+            is_sum = is_sum or (generic and ap[0][0] == "call" and "core::ops::arith::Add" in ap[0][1] and {ap_str(x) for x in ap[0][2]} == {"arg2", "arg3"})
+            ok = is_sum and (nz or generic)
     chk.decide(ok, "algebra-shape", fk, "sum-dropping-zero", fn.where(), "the merge closure returns Some(a + b) only when a + b != 0, else None",
                "the merge closure is not `if a + b != 0 { Some(a + b) } else { None }` (returns %s)" % detail[:120])
     # `products add base-unit exponents ... Rink never returns a number whose dimensionality differs from this algebra`: the sum is a
